@@ -3,6 +3,7 @@ import Crusta.Proofs.Abstract
 import Crusta.Proofs.SolveCallsID
 import Crusta.Proofs.SolveCallsRG
 import Crusta.Proofs.Assemble
+import Crusta.Proofs.StaticTotal
 
 /-!
 # C18 — every query terminates within a bounded number of SAT calls (property theorems)
@@ -122,5 +123,21 @@ theorem calls_statement_meaning {α : Type} (p : Prog α) (w : World) (k : Nat)
     (h : wp False p w (fun _ w' => w'.calls ≤ w.calls + k)) (rs : List Reply) (hs : RunSound p rs w) :
     (∀ msg w', interp p rs w ≠ (.crashed msg, w')) ∧
     ∀ a w', interp p rs w = (.done a, w') → w'.calls ≤ w.calls + k := calls_of_wp p w k h rs hs
+
+/-- **every query terminates**: for each of the seven static solver types, every entry point, every
+view presenting a graph, every admissible encoder and every sound behaviour of the SAT solver, the
+program reaches no crash node — no `unwrap` panic, no "unreachable", and the model's loop fuel (the
+Rust loops have none) is never exhausted once it is at least `fuelFor N = (N+3)·2^N + N + 3` for ids
+below `N`; a run on a reply list therefore either returns a conforming answer, or aborts on an
+`unknown` reply (C17), or stops because the reply list given to the interpreter was too short -/
+theorem every_query_terminates (sk : SolverKind) (cfg : Cfg) (hcfg : CfgOK sk cfg) (v : FwView) (g : G) (hv : v.Ok g)
+    (e : Entry) (hargs : ∀ a, a ∈ e.argsList → g.live a = true)
+    (p : Prog Ans) (hp : entryProg sk cfg v e = some p) (w : World) (hb : w.Bounded)
+    (hfuel : cfg.fuel ≥ fuelFor (1 + v.maxId.getD 0)) (rs : List Reply) (hs : RunSound p rs w) :
+    (∀ msg w', interp p rs w ≠ (.crashed msg, w')) ∧
+    ((∃ ans w', interp p rs w = (.done ans, w') ∧ EntryOK sk.sem g e ans) ∨
+     (∃ w', interp p rs w = (.abort, w')) ∨ (∃ w', interp p rs w = (.starved, w'))) :=
+  ⟨static_never_panics sk cfg hcfg v g hv e hargs p hp w hb hfuel rs hs,
+   static_run_total sk cfg hcfg v g hv e hargs p hp w hb hfuel rs hs⟩
 
 end Crusta.C18
